@@ -189,6 +189,12 @@ impl MqttShared {
         }
     }
 
+    #[cfg(ntex_mqtt_verif)]
+    /// Verification hook: position the packet-id counter (next auto id is `val + 1`).
+    pub(super) fn verif_set_next_id(&self, val: u16) {
+        self.inflight_idx.set(val);
+    }
+
     pub(super) fn set_cap(&self, cap: usize) {
         let mut queues = self.queues.borrow_mut();
 
